@@ -1,5 +1,5 @@
 (* Checks.v -- decidable side conditions on the generated files.  Each is
-   discharged by vm_compute in proofs/GenOk.v, so it is re-proved against what
+   discharged by vm_compute in proofs/Gen{Params,Tables,Legacy,Access}.v, so it is re-proved against what
    the Go sources say on every run; the theorems use only these facts about
    the generated constants and tables. *)
 From Coq Require Import List NArith Bool String.
